@@ -94,7 +94,9 @@ CHECKS = {
     "C05": (True, "Coq theorem: history independence/repeatability from the frame condition + kernel-checked allow-list obligations over regenerated SSA facts (I/O callees, imports, global/object writes, map iterations) + repetition, random histories, object comparison (strace in thorough)",
             "Proof (partial): if every lint call leaves the global store and the object unchanged and its result does not depend on the store, then for every history of earlier calls the result equals the result of the call alone "
             "and the object comes back unchanged (c05_history_independent). The regenerated facts must stay inside the design's allow-lists (time.Now only in the two AIA lints; os only in package lint; no writes to globals or the object; "
-            "map iterations only at reviewed order-insensitive sites). Explored: that the facts imply the frame condition for each of the ~377 bodies - by 12 repetitions per object incl. generated map-order certificates, random histories and exported-field comparison.",
+            "map iterations only at reviewed order-insensitive sites). Explored: that the facts imply the frame condition for each of the ~377 bodies - by 12 repetitions per object incl. generated map-order certificates, random histories, exported-field comparison, and two cold processes that lint the population (certificates, CRLs, OCSP responses) in opposite orders under different environments (TZ=UTC LANG=C vs TZ=America/New_York, Turkish locale, no home directory). "
+            "Modelled in full and proved for every instant: the calendar arithmetic of e_crl_next_update_invalid (time.AddDate; Kernels/Calendar.v: civil-date round trip by a kernel-evaluated sweep of one 400-year era; c05_crl_subscriber_limit, c05_crl_ca_limit) - no zone, locale or clock is among the model's arguments - "
+            "and the DSA subgroup / representation lints (c05_dsa_subgroup_residue, c05_dsa_write_would_show: a write of the reduced public value into the key is observable).",
             "DESIGN.md 5/C05", "The SSA analysis is a heuristic over-approximation (trusted). Genuine defects found here (map-order details, random status of the KU/EKU lint) were repaired in /repo."),
     "C09": (True, "Coq meta-theorem (signature-blind bodies => signature-independent result set; parser-side rule) + kernel-checked allow-list over regenerated field-read facts + signature replacement on every non-self-issued corpus certificate",
             "Proof (partial): for a certificate that is not self-issued, any two signatures of the same length give equal result sets provided every body and the framework's own reads factor through the erased view "
@@ -104,7 +106,8 @@ CHECKS = {
     "C10": (True, "Coq theorems (schedule independence of shared-read-only threads; read-mode lock never blocks) + kernel-checked obligations over regenerated call-graph facts + concurrent stress vs sequential results (race detector in thorough)",
             "Proof (partial): for every interleaving of threads none of whose steps writes the shared store, the shared store is unchanged and each thread ends with exactly what it computes alone; a readers-writer lock acquired only in read mode never blocks. "
             "Each run regenerates, from go/ssa, the stores to package-level state and the lock operations reachable from Lint*Ex and the registry read API and the kernel checks there are none / only read-mode ones. "
-            "Explored: goroutines linting their own objects against shared registries while readers call the registry API, compared with sequential results; thorough builds the harness with -race and varies G and GOMAXPROCS.",
+            "Explored: goroutines linting their own objects against shared registries while readers call the registry API, compared with sequential results; a freshly filtered (cold) registry used at once by Filter, Sources, Names and LintCertificateEx under a deadline; a 40000-entry revocation list linted by 16 goroutines on one processor; thorough builds the harness with -race and varies G and GOMAXPROCS. "
+            "Kernel-checked as well: no lint reaches a read of the clock, a timer or the scheduler's state (same allow-list as C05), since such a step is not a function of the thread's private store.",
             "DESIGN.md 5/C10", "The Go memory model, scheduler and runtime locks are outside the model; only the schedules actually run are covered for them."),
     "C17": (True, "Coq theorems (permutation invariance of any-offender rules, of the three-way label evaluation, of fourteen fully modelled name-scanning lints, four common-name-versus-SAN lints and thirteen subject-attribute length lints, of OID lookup) + in-Coq correspondence of those 38 lints + DER-level permutation of SAN entries and extensions over all lints",
             "Proof (partial): a rule 'finding if some element offends, else NA if some element is unparseable, else pass' gives the same status on every permutation of the list; the seven DNS-label lints are modelled in that form and tied to the "
@@ -125,7 +128,7 @@ CHECKS = {
             "the SCT-list lint, util.GetHost, util.GetAuthority and util.ParseBMPString (Kernels/Bodies.v, every index explicit) never index out of range - the time lints under the parser's length guard, refuted without it - and agree with the real code on ~8500 directly built inputs. "
             "Panic-site inventory (translator, regenerated every run): the bounds checks the Go compiler could not prove away in v3/lint, v3/lints and v3/util (go build -gcflags=-d=ssa/check_bce/debug=1: 65 sites today; every other index or slice expression is in range by the compiler's own proof) plus the unchecked type assertions, "
             "explicit panics and integer divisions by a variable inside lint closures (go/ssa: 19 assertions today, keyed with whether the closure tests the same type with the comma-ok form) must each be accounted for in panic_audit.txt - modelled with a safety theorem, guarded by CheckApplies or a visible test, a parser invariant, "
-            "an inlined standard-library body, unreachable from any lint - and the kernel checks the inclusion (Obl_C02_panic_sites); util.ParseQcStatem's result-type discipline, on which six unchecked ETSI assertions rest, is modelled (Kernels.QcStatem, c02_qc_assert_safe) and compared with the code. "
+            "an inlined standard-library body, unreachable from any lint - and the kernel checks the inclusion (Obl_C02_panic_sites); util.ParseQcStatem's result-type discipline, on which six unchecked ETSI assertions rest, is modelled (Kernels.QcStatem, c02_qc_assert_safe) and compared with the code; the four DSA key lints are modelled as functions of the key's integers (Kernels.Dsa: total for every positive P, Q, G, Y - P = 1 included - and the subgroup lint decides exactly Y^Q = 1 mod P) and compared on the zoo's key-params class. "
             "Explored: all other rule bodies - no Coq semantics of ~365 Go bodies can be built here - by directed generation at the index/slice/type-assertion sites (hostile extension contents, name shapes) and structure-aware mutants of the corpus (30k in thorough), only inputs the parsers accept.",
             "DESIGN.md 5/C02", "A parser that itself panics on a mutant counts as not accepting it. The compiler's prove pass is trusted for the bounds checks it eliminates; panic_audit.txt is hand reasoning (trusted) about the ones it keeps; nil dereferences and panics raised inside dependencies (e.g. math/big) have no inventory and are covered by the sweeps only."),
 }
